@@ -54,7 +54,10 @@ def run(chk, tier):
                         clo = x
                         break
                 ok = v[0] == 'agg' and v[3] == 'Ok' and clo is not None
-                slot = dict(clo[4]).get('mutex') if clo else None
+                slot = None
+                for _, up in (clo[4] if clo else ()):      # (the lock the stored closure captured, whatever the variable is called)
+                    if is_call(up, r'MutexIsh::new$'):
+                        slot = up
                 ok_slot = slot is not None and is_call(slot, r'MutexIsh::new$') and strip(slot[2][0])[0] == 'agg' and strip(slot[2][0])[3] == 'Some' and \
                     is_call(strip(strip(slot[2][0])[4][0][1]), r'Into>?::into$') and strip(strip(strip(slot[2][0])[4][0][1])[2][0]) == ('param', 0, 1)
                 chk.ob('R12.2', 'the single-use slot is a locked Some(value.into()) owned by the stored closure', ok and ok_slot, config=cfg, fn=fn, site='slot', what='single-use slot construction',
